@@ -171,7 +171,7 @@ def state_is(vec, r):
 
 class Reach:
     """Exact reachable set of FF valuations, with a reset-rooted input path per state."""
-    def __init__(self, h, stats, limit=64):
+    def __init__(self, h, stats, limit=2048):
         ts = h.translate()
         self.ts = ts
         init = tuple(z3.simplify(v).as_long() for v in ffvec(ts, ts.reset_state()))
